@@ -43,15 +43,19 @@ class ModuleWrapper(MethodView):
         }
         app = flask.current_app
         template_folder: Path = Path(app.root_path) / app.template_folder
+        if '\0' in filename or not filename.endswith('.js'):
+            # the .tjs templates are rendered, with the context they need,
+            # by their own handlers
+            return flask.make_response('Not Found', 404)
         js_name = template_folder / 'esm' / Path(filename).name
         js_name = js_name.resolve()
         if not js_name.is_relative_to(template_folder):
             logging.warning('Invalid ESM module path "%s"', filename)
             return flask.make_response('Not Found', 404)
-        if not js_name.exists():
+        if not js_name.is_file():
             logging.warning('Failed to find ESM module "%s"', js_name)
             return flask.make_response('Not Found', 404)
-        body = flask.render_template(f'esm/{filename}')
+        body = flask.render_template(f'esm/{js_name.name}')
         return flask.make_response((body, 200, headers))
 
 
